@@ -95,7 +95,7 @@ pub fn main(args: Args) {
         run.finish(&[]);
     }
 
-    let n = args.budget("cases", 120, 4000);
+    let n = args.budget("cases", 140, 4000);
     for (arm, var) in ARMS.iter() {
         if let Some(only) = args.get("arm")
             && only != *arm
